@@ -6,6 +6,7 @@ mod catalogue;
 mod errs;
 mod ext;
 mod items;
+mod items_rec;
 mod ext_array;
 mod ext_schema;
 mod ext_spec;
